@@ -1,7 +1,242 @@
-/- Driver glue for C10: case lines `c10.<sub> <args…> | <impl…>` (stub until the property is built) -/
-import FileD.Prelude.Tok
-namespace FileD.DrvC10
+/-
+  Driver glue for C10. Case lines (all numbers decimal, signed where the Go type is signed):
 
-def handle (_cmd : String) (_args _impl : List String) : Option (String × String) := none
+  c10.pack  <index> <partition> <offset> <epoch>
+            | <sourceID> <index'> <partition'> <assembledOffset> <markOffset> <markEpoch>
+      real assembleSourceID / disassembleSourceID / assembleOffset / disassembleOffset against the
+      regenerated Gen.KafkaPack definitions; P = round trip (Spec.packOk) when the inputs are in the
+      property's range.
+
+  c10.marks <ntopics> <nrec> (<topic> <part> <offset> <epoch>)… <ncommit> <i>…
+            | <ncommit> (<k> (<topic> <part> <epoch> <offset>)*k)…      or  panic:<kind>
+      real Plugin.Commit on events carrying the packed values, offline kgo client; after each commit
+      the client's MarkedOffsets (sorted). Model: commitPacked (Gen functions + max-keeping mark).
+      P: Spec.verdict after each commit (consumed = all records, finished = committed so far).
+
+  c10.pipe  <procs> <async> <capacity> <ntopics> <nrec> (<topic> <part> <offset> <epoch> <discard>)… <nchoice> <c>…
+            | <nops> op…   with op = in <i> <stream> <sourceID> <offset> | out <i> | drop <i>
+                                     | ack <i> <k> (<topic> <part> <epoch> <offset>)*k
+      observed trace of the real pipeline in spread mode; replayed through KafkaCommit.step?.
+-/
+import FileD.Prelude.Tok
+import FileD.Model.KafkaCommit
+import FileD.Spec.C10
+namespace FileD.DrvC10
+open FileD Tok FileD.KafkaCommit
+
+def parseRecs (extra : Nat) : Nat → List String → Option (List (Rec × List String) × List String)
+  | 0, ts => some ([], ts)
+  | n+1, t :: p :: o :: e :: ts => do
+    let r : Rec := ⟨← int? t, ← int? p, ← int? o, ← int? e⟩
+    let ex := ts.take extra
+    if ex.length ≠ extra then none
+    let (rest, r') ← parseRecs extra n (ts.drop extra)
+    pure ((r, ex) :: rest, r')
+  | _, _ => none
+
+def insertMark (x : TP × EO) : Marks → Marks
+  | [] => [x]
+  | y :: ys =>
+    if x.1.1 < y.1.1 ∨ (x.1.1 = y.1.1 ∧ x.1.2 ≤ y.1.2) then x :: y :: ys else y :: insertMark x ys
+
+def sortMarks (m : Marks) : Marks := m.foldr insertMark []
+
+/-- `MarkedOffsets` leaves out heads equal to the committed offset; offline the committed offset is
+    the zero value, so a head (epoch 0, offset 0) is not listed. -/
+def visible (m : Marks) : Marks := (sortMarks m).filter fun x => x.2 ≠ (0, 0)
+
+def encMarks (m : Marks) : String :=
+  let v := visible m
+  unwords (toString v.length :: v.flatMap fun x => [toString x.1.1, toString x.1.2, toString x.2.1, toString x.2.2])
+
+def parseMarks : Nat → List String → Option (Marks × List String)
+  | 0, ts => some ([], ts)
+  | n+1, t :: p :: e :: o :: ts => do
+    let x : TP × EO := ((← int? t, ← int? p), (← int? e, ← int? o))
+    let (rest, r) ← parseMarks n ts
+    pure (x :: rest, r)
+  | _, _ => none
+
+/-- `<k> marks…` -/
+def parseMarkList (ts : List String) : Option (Marks × List String) :=
+  match ts with
+  | k :: rest => do parseMarks (← nat? k) rest
+  | [] => none
+
+def recInRange (r : Rec) : Bool := SpecC10.inRange r.topic r.part r.offset r.epoch
+
+/-! ### c10.pack -/
+
+def handlePack (args impl : List String) : Option (String × String) :=
+  match args with
+  | [a, b, c, d] => do
+    let index ← int? a; let part ← int? b; let offset ← int? c; let epoch ← int? d
+    let r : Rec := ⟨index, part, offset, epoch⟩
+    let sid := packSourceID r
+    let ip := Gen.KafkaPack.disassembleSourceID sid
+    let asm := packOffset r
+    let eo := Gen.KafkaPack.disassembleOffset asm
+    let m := unwords [toString sid.toNat, toString ip.1.toInt, toString ip.2.toInt, toString asm.toInt,
+                      toString eo.Offset.toInt, toString eo.Epoch.toInt]
+    let p :=
+      if !(SpecC10.inRange index part offset epoch) then "ok" else
+      match impl with
+      | [_, i', p', _, mo, me] =>
+        match int? i', int? p', int? mo, int? me with
+        | some i', some p', some mo, some me =>
+          if SpecC10.packOk index part offset epoch i' p' mo me then "ok" else "fail:roundtrip"
+        | _, _, _, _ => "bad-impl"
+      | _ => if (impl.head?.getD "").startsWith "panic" then "fail:panic" else "bad-impl"
+    pure (m, p)
+  | _ => none
+
+/-! ### c10.marks -/
+
+/-- model of the commit sequence on packed values; `none` = `Topics[index]` out of range (Go panic) -/
+def marksModel (ntopics : Nat) (recs : List Rec) : Marks → List Nat → Option (List Marks)
+  | _, [] => some []
+  | m, i :: is => do
+    let r ← recs[i]?
+    let sid := packSourceID r
+    let idx := (Gen.KafkaPack.disassembleSourceID sid).1.toInt
+    if idx < 0 ∨ idx ≥ ntopics then none
+    let m' := commitPacked m sid (packOffset r)
+    let rest ← marksModel ntopics recs m' is
+    pure (m' :: rest)
+
+/-- verdicts after each commit of the implementation's observed marks -/
+def marksVerdicts (recs : List Rec) : List Nat → List Nat → List String → List String
+  | _, [], _ => []
+  | done, i :: is, ts =>
+    let done' := i :: done
+    match parseMarkList ts with
+    | some (obs, rest) => SpecC10.verdict recs done' done' obs :: marksVerdicts recs done' is rest
+    | none => ["bad-impl"]
+
+def handleMarks (args impl : List String) : Option (String × String) :=
+  match args with
+  | nt :: nr :: rest => do
+    let ntopics ← nat? nt
+    let n ← nat? nr
+    let (rs, r1) ← parseRecs 0 n rest
+    let recs := rs.map (·.1)
+    let (order, r2) ← listOf nat? r1
+    if r2 ≠ [] then none
+    if order.any (· ≥ recs.length) then none
+    let m := match marksModel ntopics recs [] order with
+      | some ms => unwords (toString ms.length :: ms.map encMarks)
+      | none => "panic:bounds"
+    let allIn := recs.all recInRange && recs.all (fun r => r.topic < ntopics)
+    let p := match impl with
+      | k :: irest =>
+        if k.startsWith "panic" then (if allIn then "fail:panic" else "ok") else
+        if nat? k ≠ some order.length then "bad-impl" else
+        if allIn then SpecC10.firstBad (marksVerdicts recs [] order irest) else "ok"
+      | [] => "bad-impl"
+    pure (m, p)
+  | _ => none
+
+/-! ### c10.pipe -/
+
+inductive TOp
+  | tin (i sid : Nat) (psid : Nat) (poff : Int)
+  | tout (i : Nat)
+  | tdrop (i : Nat)
+  | tack (i : Nat) (obs : Marks)
+
+def parseOps : Nat → List String → Option (List TOp × List String)
+  | 0, ts => some ([], ts)
+  | n+1, "in" :: i :: s :: a :: b :: ts => do
+    let op := TOp.tin (← nat? i) (← nat? s) (← nat? a) (← int? b)
+    let (rest, r) ← parseOps n ts
+    pure (op :: rest, r)
+  | n+1, "out" :: i :: ts => do
+    let op := TOp.tout (← nat? i)
+    let (rest, r) ← parseOps n ts
+    pure (op :: rest, r)
+  | n+1, "drop" :: i :: ts => do
+    let op := TOp.tdrop (← nat? i)
+    let (rest, r) ← parseOps n ts
+    pure (op :: rest, r)
+  | n+1, "ack" :: i :: ts => do
+    let i ← nat? i
+    let (obs, r0) ← parseMarkList ts
+    let (rest, r) ← parseOps n r0
+    pure (TOp.tack i obs :: rest, r)
+  | _, _ => none
+
+def opName : TOp → String
+  | .tin .. => "in" | .tout .. => "out" | .tdrop .. => "drop" | .tack .. => "ack"
+
+/-- replay the observed trace through `step?`; prints the trace with the model's marks, or the
+    first op the model does not enable -/
+def replay (c : Cfg) (caseRecs : List Rec) : State → Nat → List TOp → List String → String
+  | _, _, [], acc => unwords acc.reverse
+  | s, k, op :: ops, acc =>
+    let rej := unwords (acc.reverse ++ [s!"reject@{k}", opName op])
+    match op with
+    | .tin i sid psid poff =>
+      match caseRecs[i]? with
+      | some r =>
+        if i ≠ s.recs.length ∨ psid ≠ (packSourceID r).toNat ∨ poff ≠ (packOffset r).toInt then rej else
+        match step? c s (.consume r sid) with
+        | some s' => replay c caseRecs s' (k+1) ops
+            (toString poff :: toString psid :: toString sid :: toString i :: "in" :: acc)
+        | none => rej
+      | none => rej
+    | .tout i =>
+      match step? c s (.take i) with
+      | some s' => replay c caseRecs s' (k+1) ops (toString i :: "out" :: acc)
+      | none => rej
+    | .tdrop i =>
+      match step? c s (.drop i) with
+      | some s' => replay c caseRecs s' (k+1) ops (toString i :: "drop" :: acc)
+      | none => rej
+    | .tack i _ =>
+      match step? c s (.ack i) with
+      | some s' => replay c caseRecs s' (k+1) ops (encMarks s'.marks :: toString i :: "ack" :: acc)
+      | none => rej
+
+/-- the oracle follows the trace's own bookkeeping (independent of what the model enables) -/
+def pipeVerdicts (caseRecs : List Rec) : List Rec → List Nat → List Nat → List TOp → List String
+  | _, _, _, [] => []
+  | recs, fin, ack, op :: ops =>
+    match op with
+    | .tin i _ _ _ =>
+      match caseRecs[i]? with
+      | some r => pipeVerdicts caseRecs (recs ++ [r]) fin ack ops
+      | none => ["bad-impl"]
+    | .tout _ => pipeVerdicts caseRecs recs fin ack ops
+    | .tdrop i => pipeVerdicts caseRecs recs (i :: fin) ack ops
+    | .tack i obs =>
+      SpecC10.verdict recs (i :: fin) (i :: ack) obs :: pipeVerdicts caseRecs recs (i :: fin) (i :: ack) ops
+
+def handlePipe (args impl : List String) : Option (String × String) :=
+  match args with
+  | pr :: _async :: _cap :: _nt :: nr :: rest => do
+    let procs ← nat? pr
+    let n ← nat? nr
+    let (rs, _) ← parseRecs 1 n rest
+    let caseRecs := rs.map (·.1)
+    match impl with
+    | k :: irest =>
+      match nat? k with
+      | some nops =>
+        match parseOps nops irest with
+        | some (ops, []) =>
+          let c : Cfg := ⟨procs, false⟩
+          let m := unwords [toString nops, replay c caseRecs (init c) 0 ops []]
+          pure (m, SpecC10.firstBad (pipeVerdicts caseRecs [] [] [] ops))
+        | _ => pure ("bad-impl", "bad-impl")
+      | none => pure ("no-model-for-failed-run", if k.startsWith "panic" then "fail:panic" else "bad-impl")
+    | [] => pure ("bad-impl", "bad-impl")
+  | _ => none
+
+def handle (cmd : String) (args impl : List String) : Option (String × String) :=
+  match cmd with
+  | "c10.pack" => handlePack args impl
+  | "c10.marks" => handleMarks args impl
+  | "c10.pipe" => handlePipe args impl
+  | _ => none
 
 end FileD.DrvC10
